@@ -266,14 +266,14 @@ def body(ck, F, cfg):
     why = []
     ck.require(isinstance(hdr_s, Vec) and vec_eq(hdr_s, Vec.const(Sc(0), 2 * M + 2), why), "R07.3", "header-scalars", f"shared scalars must start as 2M+2 zeros; {'; '.join(why)}", where)
     # verdict
-    guards = [it for it in I.trace.items if it[0] == "guard" and it[4] == P_BATCH]
+    guards = [it for it in I.trace.items if it[0] == "guard" and FX.same_fn(it[4], P_BATCH)]
     ret = A["ret"]
     okv = isinstance(ret, Ite) and isinstance(ret.cond, Cond) and ret.cond.op == "iszero" and isinstance(getattr(ret.cond, "subject", None), Pt)
     if okv:
         acc, rej = (ret.a, ret.b) if not ret.cond.neg else (ret.b, ret.a)
         okv = isinstance(acc, Enum) and acc.variant == "Ok" and isinstance(rej, Enum) and rej.variant == "Err" and "VerificationError" in repr(rej)
     ck.require(okv, "R07.4", "verdict", f"batch_verify must return Ok exactly when the single accumulated multiscalar sum is the identity; return value {ret!r}", where)
-    msms = [m for m in I.msm_log if m["fn"] == P_BATCH]
+    msms = [m for m in I.msm_log if FX.same_fn(m["fn"], P_BATCH)]
     ck.require(len(msms) == 1 and msms[0]["equal"], "R07.3", "single-msm", f"one multiscalar check over equally long lists expected; {[(str(m['len_bases']), str(m['len_scalars'])) for m in msms]}", where)
     ck.floor("accumulation sites", len([o for o in ck.obligations if o[1].startswith("accumulate:")]), 4)
 
